@@ -46,6 +46,7 @@ func (g *Gen) buildQuery(o *Obl, extraAssume string, wantModel bool, dropQuant b
 		sb.WriteString(l)
 		sb.WriteString("\n")
 	}
+	sb.WriteString(g.typingTable())
 	for _, l := range g.specDecl {
 		sb.WriteString(l)
 		sb.WriteString("\n")
@@ -135,6 +136,21 @@ func (eng *Engine) discharge(g *Gen, o *Obl, dir string, idx int, timeout time.D
 		ans, _, d := runSolver(s, f, to)
 		res.Attempts = append(res.Attempts, fmt.Sprintf("%s:%s:%.2fs", s.Name, ans, d))
 		return ans
+	}
+	if o.probe {
+		// a reachability probe must NOT be provable; one quick attempt is enough
+		to := 3 * time.Second
+		if to > timeout {
+			to = timeout
+		}
+		ans := try(solvers[0], file, to)
+		res.Answer, res.Solver = ans, solvers[0].Name
+		if ans == "unsat" {
+			res.Status = "proved"
+		} else {
+			res.Status = "failed"
+		}
+		return res
 	}
 	// stage 1: z3 5.1 short
 	ans := try(solvers[0], file, timeout)
